@@ -139,13 +139,22 @@ func (c *recursionChecker) checkMixedValueNode(
 	node *ischema.MixedValueNode,
 	types map[string]ischema.Type,
 ) error {
+	return c.checkMixedValueNodeOf(node, types, false)
+}
+
+// checkMixedValueNodeOf: typeRoot says that the node is the whole content of a type.
+func (c *recursionChecker) checkMixedValueNodeOf(
+	node *ischema.MixedValueNode,
+	types map[string]ischema.Type,
+	typeRoot bool,
+) error {
 	tt := node.GetTypes()
 
 	// We should check all types and return an error only if all paths leads
 	// to infinite recursion.
 	ee := make([]error, 0, len(tt))
 	for _, t := range tt {
-		if err := c.checkType(t, types); err != nil {
+		if err := c.checkType(t, types, typeRoot || len(tt) > 1); err != nil {
 			ee = append(ee, err)
 		}
 	}
@@ -157,13 +166,20 @@ func (c *recursionChecker) checkMixedValueNode(
 	return nil
 }
 
-func (c *recursionChecker) checkType(typeName string, types map[string]ischema.Type) error {
+func (c *recursionChecker) checkType(typeName string, types map[string]ischema.Type, alternative bool) error {
 	if !c.visit(typeName) {
 		if typeName != c.path[0] {
 			// A cycle that does not lead back to the checked type is somebody
 			// else's recursion (and was never reported); just stop descending.
+			// As an alternative of `@a | @b` it is still no way out: a choice whose
+			// every alternative runs into a type that is being resolved right now has
+			// no finite value (@a: "@main | @a" was accepted, and its example was empty).
+			var err error
+			if alternative {
+				err = c.createError()
+			}
 			c.path = c.path[:len(c.path)-1]
-			return nil
+			return err
 		}
 		return c.createError()
 	}
@@ -179,7 +195,14 @@ func (c *recursionChecker) checkType(typeName string, types map[string]ischema.T
 	// Types referenced from inside this type are looked up in the same table:
 	// a type added with AddType carries no table of its own, and with its empty
 	// table every chain longer than two types ended here unnoticed.
-	return c.check(t.Schema.RootNode(), types)
+	//
+	// A type that IS a reference (@a: "@b", @a: "@b | @c") has nothing of its own
+	// to fall back on: running into a type that is being resolved is no way out for it.
+	root := t.Schema.RootNode()
+	if mv, ok := root.(*ischema.MixedValueNode); ok && !ischema.IsOptionalNode(root) && !ischema.IsNullableNode(root) {
+		return c.checkMixedValueNodeOf(mv, types, true)
+	}
+	return c.check(root, types)
 }
 
 func (c *recursionChecker) visit(typeName string) bool {
